@@ -50,7 +50,8 @@ Proof. vm_compute. reflexivity. Qed.
    returns, the number is the chromatic index of the exact edge list (= chromatic_index_ref);
    the edge array has one entry per pair in dense-array order, and as long as the index fits
    the element type of the []byte result (chi' <= 255) it holds 0 at the non-edges and a colour
-   1..chi' at the edges, different for different edges sharing an end.  (For chi' >= 256 the
+   1..chi' at the edges, different for different edges sharing an end, every colour 1..chi'
+   on some edge.  (For chi' >= 256 the
    conversion byte(colour+1) wraps: see notes/C09_dsatur.md, observed on K_{1,256}.) *)
 Theorem C09_chromatic_index_dsatur : forall g,
   exists ci ce, chromatic_index_dsatur g = Ok (Z.of_nat ci, Some ce) /\
@@ -61,7 +62,9 @@ Theorem C09_chromatic_index_dsatur : forall g,
       (gadj g i j = false -> nth p ce 0 = 0) /\
       (gadj g i j = true -> 1 <= nth p ce 0 <= Z.of_nat ci /\
          forall p' i' j', nth_error (pairs (gn g)) p' = Some (i', j') -> gadj g i' j' = true ->
-           (i, j) <> (i', j') -> share_end (i, j) (i', j') -> nth p ce 0 <> nth p' ce 0)).
+           (i, j) <> (i', j') -> share_end (i, j) (i', j') -> nth p ce 0 <> nth p' ce 0)) /\
+    ((ci <= 255)%nat -> forall c, 1 <= c <= Z.of_nat ci ->
+       exists p i j, nth_error (pairs (gn g)) p = Some (i, j) /\ gadj g i j = true /\ nth p ce 0 = c).
 Proof. exact chromatic_index_dsatur_ok. Qed.
 Print Assumptions C09_chromatic_index_dsatur.
 
